@@ -115,7 +115,9 @@ def writer_size(u: U):
             written.append(SBytes.of(b))
             return SAwait(name="writer.write")
 
-    n = u.choose(3, "n_parts")
+    from pyvc.registry import width
+
+    n = u.choose(width(3, 5), "n_parts")
     parts = [_Part(u, i, log) for i in range(n)]
     enc = u.choose(2, "some_part_encoded") == 1 if n else False
     plist = [(p, "", "base64" if (enc and i == 0) else "") for i, p in enumerate(parts)]
@@ -124,7 +126,7 @@ def writer_size(u: U):
                {"super.__init__": lambda self, *a, **k: None}, shared=False, real=(MP, "MultipartWriter"),
                init=(MP, "MultipartWriter.__init__", ("mixed", "BOUNDARY"), {}))
     fsz = u.load(MP, "MultipartWriter.size")
-    u.loop("multipart:MultipartWriter.size", 0, unroll=True, bound=4)
+    u.loop("multipart:MultipartWriter.size", 0, unroll=True, bound=8)
     s1 = u.call(fsz, mw)
     u.check("C19.size.total", s1.ok, repr(s1))
     if not s1.ok:
@@ -133,7 +135,7 @@ def writer_size(u: U):
         u.check("C19.size.unknown_when_encoded", s1.value is None, "a transfer- or content-encoded part makes the size unknown")
         return
     fw = u.load(MP, "MultipartWriter.write")
-    u.loop("multipart:MultipartWriter.write", 0, unroll=True, bound=4)
+    u.loop("multipart:MultipartWriter.write", 0, unroll=True, bound=8)
     o = u.call(fw, mw, _W())
     u.check("C19.write.total", o.ok, repr(o))
     total = mk_int(z3.IntVal(0))
